@@ -14,15 +14,14 @@ cp SEED_NOTES.md $D/ 2>/dev/null
 PKG=./$(dirname "$DEMO")
 echo "== demo: $DEMO pkg: $PKG"
 go build ./... && echo BUILD-OK || echo BUILD-FAIL
-CHANGED=$(git diff --name-only | xargs -n1 dirname | sort -u | sed 's|^|./|' | tr '\n' ' ')
-echo "== existing tests of changed packages ($CHANGED) + demo pkg, demo skipped"
-go test -vet=off -count=1 -skip 'Demo|ZZ' $CHANGED $PKG 2>&1 | grep -E "^(ok|FAIL|---)" | sort -u | head
+echo "== whole existing suite with the change, demo skipped (ExampleNew needs the network and always fails)"
+go test -vet=off -count=1 -skip 'Demo|ZZ|ExampleNew' ./... 2>&1 | grep -E "^(FAIL|--- FAIL|ok)" | grep -v "^ok" | sort -u | head; echo "   (no FAIL lines above = suite passes)"
 echo "== demo WITH change (expect FAIL)"
 go test -vet=off -count=1 -run 'Demo|ZZ' $PKG 2>&1 | grep -E "^(ok|FAIL|--- FAIL)" | head -3
-git stash -q
+git apply -R $D/patch.diff
 echo "== demo WITHOUT change (expect ok)"
 go test -vet=off -count=1 -run 'Demo|ZZ' $PKG 2>&1 | grep -E "^(ok|FAIL|--- FAIL)" | head -3
-git stash pop -q
+git apply $D/patch.diff
 echo "== gosym check $PROP with the change applied to /repo"
 git -C /repo apply $D/patch.diff && (cd /verif && timeout 900 ./bin/gosym check $PROP 2>&1 | grep -E "^(VIOLATION|RESULT|KNOWN|INCONCLUSIVE|  violated)" | cut -c1-260 | head -12) 
 git -C /repo checkout -- .
